@@ -23,8 +23,8 @@ RULE = ("correspondence: one driver line per call of pack_struct / unpack_struct
         "PeerAddress() / InvItem(); distinct = distinct line; non-trivial = the model returns a value (not an exception)")
 PARTIAL = ["Tx / Block / header codecs are parameters of the theorems (frame round-trip hypothesis, owned by C07/C14); in the "
            "correspondence run they are answered by the real Tx.parse/Block.parse through oracle callbacks",
-           "merkleblock: post_unpack_merkleblock is a parameter (C14); round trip is stated for field values on which it succeeds",
-           "alert: round trip only for payloads that parse as an alert sub-message (known finding alert-payload-not-alert)"]
+           "merkleblock: post_unpack_merkleblock is a parameter (C14); pack / wire bytes / field-level parse are unconditional, "
+           "network.message.parse is stated for field values on which the post-processing succeeds (honest proofs)"]
 TRUSTED = ["struct.pack/unpack '<B' '<H' '<L' '<Q' '!H' 'B' '?' modelled as fixed-width unsigned little/big-endian (tied by correspondence)",
            "harness/gens/messages_c16.py (layout table, registered characters, post_unpack names, IP4_HEADER; live value + AST cross-check)",
            "Python str is modelled as list byte (ASCII); dict as association list (field names checked duplicate-free by table_ok)"]
@@ -609,7 +609,7 @@ def message_values(name, rng, O, tier):
     else:
         for n in list(range(1, 12)) + [16, 17, 31, 32, 33, 64, 100]:
             out.append(gen_merkleblock(rng, n))
-    for _ in range(12 if tier == "quick" else 300):
+    for _ in range(40 if tier == "quick" else 600):
         out.append(gen_kwargs(name, rng, O))
     return out
 
@@ -709,7 +709,7 @@ def model_cases(rng, tier):
     all_vals = [None, True, False, 0, 1, 2, -1, 255, 256, 2 ** 48, 2 ** 64, b"", b"\0", b"ab", b"\5" * 32, b"\6" * 16, (), (1,), (1, 2),
                 O.txs[0], O.blocks[0], O.headers[0], PeerAddress(1, b"\1\2\3\4", 5), InvItem(1, b"\7" * 32)]
     for wt, c in CODEC_OF_WIRE.items():
-        vals = good_values(wt, rng, O, 20 if tier == "quick" else 400) + BAD.get(wt, []) + all_vals
+        vals = good_values(wt, rng, O, 60 if tier == "quick" else 1500) + BAD.get(wt, []) + all_vals
         for v in vals:
             add_pack_struct(c, [v])
             try:
@@ -738,7 +738,7 @@ def model_cases(rng, tier):
                b"\3\1\2\3", b"\3\1\2", b"\2" + O.txs[0].as_bin() * 2, b"\1" + O.blocks[0].as_bin(), b"\2" + O.headers[0].as_bin() + b"\0" + O.headers[1].as_bin() + b"\5",
                O.txs[1].as_bin(), O.blocks[1].as_bin(), O.blocks[1].as_bin()[:80], O.blocks[1].as_bin()[:81], O.txs[1].as_bin()[:-1],
                b"\1" + bytes(range(36)), b"\1" + bytes(range(30)), b"\1" + b"\1\0\0\0" + b"\0" * 26, b"\1" + b"\1\0\0\0" + b"\0" * 25]
-    streams += [rb(rng, rng.randint(0, 90)) for _ in range(20 if tier == "quick" else 600)]
+    streams += [rb(rng, rng.randint(0, 90)) for _ in range(60 if tier == "quick" else 1500)]
     fmts = list(CODEC_OF_WIRE.values()) + FORMATS_EXTRA
     for fmt in fmts:
         for s in streams:
@@ -771,7 +771,7 @@ def model_cases(rng, tier):
             except Exception:
                 continue
             add_parse(name, b)
-            if len(b) < 3000 and (i < 25 or tier == "thorough"):
+            if len(b) < 3000 and (i < 40 or tier == "thorough"):
                 for m in mutate_stream(b, rng):
                     add_parse(name, m)
         for kw in bad_kwargs(name, rng, O):
@@ -785,7 +785,7 @@ def model_cases(rng, tier):
             except Exception:
                 continue
             add_parse(name, b)
-        for _ in range(10 if tier == "quick" else 300):
+        for _ in range(60 if tier == "quick" else 1500):
             add_parse(name, rb(rng, rng.choice([0, 1, 2, 5, 9, 33, 37, 60, 90, 200])))
         if name == "alert":   # payloads that are not serialized alerts (known finding) + truncated serialized alerts
             for p in (b"", b"abc", rb(rng, 40)):
@@ -824,14 +824,15 @@ def chk_roundtrip(name, kw):
     try:
         d = M.parse(name, b)
     except Exception as e:
-        r = {"kind": "parse-raises", "detail": "%s: %s" % (type(e).__name__, e)}
-        if name == "alert":
-            try:
-                S.parse_as_dict([n for n, _ in ALERT_WIRE], "".join(_wire_fmt(w) for _, w in ALERT_WIRE), io.BytesIO(kw["payload"]))
-                r["payload_is_alert"] = True
-            except Exception:
-                r["payload_is_alert"] = False
-        return r
+        return {"kind": "parse-raises", "detail": "%s: %s" % (type(e).__name__, e)}
+    if name == "alert":
+        # alert_info: the parsed sub-message when the payload is a serialized alert, else None
+        try:
+            want_info = S.parse_as_dict([n for n, _ in ALERT_WIRE], "".join(_wire_fmt(w) for _, w in ALERT_WIRE), io.BytesIO(kw["payload"]))
+        except Exception:
+            want_info = None
+        if "alert_info" not in d or cv(d["alert_info"]) != cv(want_info):
+            return {"kind": "alert-info-differs", "got": cv(d.get("alert_info"))[:200], "want": cv(want_info)[:200]}
     for fname, _ in spec:
         if fname not in d:
             return {"kind": "field-missing", "field": fname}
@@ -899,7 +900,7 @@ def prop_cases(rng, tier):
     for name in WIRE:
         for kw in message_values(name, rng, O, tier):
             yield PropCase("roundtrip", _inp(name, kw), (lambda name=name, kw=kw: chk_roundtrip(name, kw)))
-    # alert with payloads that are arbitrary byte strings (declared type S): the known finding
+    # alert with payloads that are arbitrary byte strings (declared type S; formerly a finding, repaired in /repo)
     for p in [b"", b"abc", b"\0" * 10] + [rb(rng, rng.randint(1, 80)) for _ in range(20)]:
         kw = {"payload": p, "signature": b"sig"}
         yield PropCase("roundtrip", _inp("alert", kw), (lambda kw=kw: chk_roundtrip("alert", kw)))
@@ -916,14 +917,10 @@ def replay_input(check, inp):
 
 
 def classify(pc, r):
-    if pc.name == "roundtrip" and pc.inp.get("name") == "alert" and r.get("kind") == "parse-raises" and r.get("payload_is_alert") is False:
-        return "alert-payload-not-alert"
-    return None
+    return None      # no open finding for C16 (the "6", "O" and alert findings are fixed in /repo)
 
 
-KNOWN_REPLAYS = {
-    "alert-payload-not-alert": lambda: chk_roundtrip("alert", {"payload": b"abc", "signature": b"sig"}),
-}
+KNOWN_REPLAYS = {}
 
 
 def search(rng, tier, disagreements, known_ids):
